@@ -123,11 +123,13 @@ ImplClauses(oi, ni, new, e) ==
                        e.dk[k][1] \in IIds(ni) /\ E(ni, e.dk[k][1]).key = e.dk[k][2]>>,
      <<"impl_structures_consistent", e.audit => ImplConsistent(ni)>> >>
 
-AuditClauses(bk) ==
+\* (C03_TimeOrdered presupposes the valid-history assumption "the clock is never moved backwards"; traces recorded
+\* through the Python book, whose property C18 quantifies over every call sequence, also move it backwards and say so)
+AuditClauses(bk, e) ==
   << <<"C01_QueueSorted", C01_QueueSorted(bk)>>,
      <<"C02_ViewsAgree", C02_ViewsAgree(bk)>>,
      <<"C03_WellFormed", C03_WellFormed(bk)>>,
-     <<"C03_TimeOrdered", C03_TimeOrdered(bk)>>,
+     <<"C03_TimeOrdered", ("clock_was_moved_back" \in DOMAIN e) \/ C03_TimeOrdered(bk)>>,
      <<"C03_Conservation", C03_Conservation(bk)>>,
      <<"C04_State", C04_State(bk)>>,
      <<"C12_OnGrid", C12_OnGrid(bk)>>,
@@ -167,7 +169,7 @@ Call ==
           /\ istale' = istale
         ELSE
           LET c == FirstFalse(StepClauses(old, new, lbl))
-              a == IF e.audit THEN FirstFalse(AuditClauses(new)) ELSE ""
+              a == IF e.audit THEN FirstFalse(AuditClauses(new, e)) ELSE ""
               i == IF istale THEN "" ELSE FirstFalse(ImplClauses(ib, ni, new, e))
           IN
           /\ b' = new
